@@ -25,7 +25,8 @@ CLAIMED = {
  'C05': dict(
    text='PARTIAL proof. Proved for all inputs: plane-level conversion of a lossy frame = libwebp no-fancy BT.601 of (Y[x,y],U[x/2,y/2],V[x/2,y/2]) for every '
         'width >= 1 / height / parity, RGB and RGBA writers (kernels regenerated from vp8.rs every run); the in-place alpha loop = container-spec un-filtering for '
-        'all four filters incl. first row/column, colour bytes untouched. Inherited, not proved: planes = RFC 6386 reconstruction (C02), compressed ALPH = VP8L spec (C01).',
+        'all four filters incl. first row/column, colour bytes untouched. Inherited, not proved: planes = RFC 6386 reconstruction (C02), compressed ALPH = VP8L spec (C01); '
+        'those links are covered by whole-still correspondence read_image = Spec.Still.decode_still (composed executable Coq spec) on generated stills with every ALPH variant.',
    note='Trusted: Coq kernel, rs2v translator, hand models Model/Yuv.v and Model/Alpha.v (correspondence-checked through hooks fill_rgb/fill_rgba/apply_alpha), '
         'Spec/YUV.v (transcription of libwebp yuv.h) and Spec/Alpha.v (container spec text).',
    technique='Coq proof (translated kernels + loop induction) + correspondence check',
